@@ -138,8 +138,9 @@ class GlomError(Exception):
         bases = (GlomError,) if issubclass(GlomError, exc_type) else (exc_type, GlomError)
         # exception types with a __str__ of their own (KeyError, OSError, SyntaxError, ...)
         # would otherwise hide the target-spec trace
-        exc_wrapper_type = type(f"GlomError.wrap({exc_type.__name__})", bases, {'__str__': GlomError.__str__})
         try:
+            # creating the class can fail, too (final classes, __init_subclass__ hooks)
+            exc_wrapper_type = type(f"GlomError.wrap({exc_type.__name__})", bases, {'__str__': GlomError.__str__})
             wrapper = exc_wrapper_type(*exc.args)
             wrapper.args = exc.args  # __init__ may have rewritten them
             wrapper.__wrapped = exc
